@@ -32,6 +32,12 @@ fn main() {
         i += 1;
     }
     install_panic_hook();
+    // a stuck implementation (an operation that never returns) is reported, not waited for; the concurrency
+    // component reports its own progress differently (one long operation)
+    if comp != "conc" {
+        let _ = std::fs::remove_file(format!("{out}/{comp}.hang"));
+        tvh::util::start_watchdog(&out, &comp, if thorough { 600 } else { 180 });
+    }
     let mut rng = Rng::new(seed);
     let run = match comp.as_str() {
         "packet" => tvh::packet::run(&mut rng, thorough, &corpus),
